@@ -163,7 +163,7 @@ def _work(job):
             else:
                 ch = dsched.RandomChooser(random.Random(s2))
                 src = 'random'
-            if i % 40 == 39:
+            if i % 10 == 9:
                 # line-granular preemption, oracle only (the label mapping of the model works at region granularity)
                 r = datarun.run_scenario(sc, dsched.RandomChooser(random.Random(s2)), eager=('writer',), fine=True, fine_seed=s2)
                 d = _digest(r, pid, 'fine', model=False)
@@ -192,7 +192,7 @@ def explore(ctx, res, pid):
                 'pool sizes 1,2,3,8; schedules: corpus, bounded-exhaustive DFS of small single-item scenarios, PCT and uniform random; each run is replayed '
                 'step by step through Model/Item.v (labels accepted, lines per step, invariants and monitors of ItemSpec.v along the trace, final per-item state) '
                 'and judged by the oracle of the property; every access to the shared fields of subscription.py is checked against the lock the model attributes it to '
-                '(lockset tracing); one random run in forty uses line-granular preemption (every source line of the library a yield point) and is judged by the oracle only; '
+                '(lockset tracing); one random run in ten uses line-granular preemption (every source line of the library a yield point) and is judged by the oracle only; '
                 'non-trivial = distinct (scenario, schedule) with at least two scheduling decisions')
     bound = 2 if tier == 'quick' else 3
     cap = 600 if tier == "quick" else 40000
